@@ -412,7 +412,7 @@ func orchestrate(env *Env, self string, only int) int {
 	mu.Unlock()
 
 	// crashes are handed to the property's crash policy: by default a crash is a violation
-	replayDir := filepath.Join(verifRoot(), "evidence", "replay")
+	replayDir := filepath.Join(evidenceDir(), "replay")
 	os.MkdirAll(replayDir, 0o755)
 	if only < 0 {
 		if old, _ := filepath.Glob(filepath.Join(replayDir, fmt.Sprintf("%s-%s-s%d-*", p.ID, env.Tier, env.Seed))); len(old) > 0 {
@@ -506,6 +506,15 @@ func oneLine(s string, n int) string {
 	return s
 }
 
+// evidenceDir: where evidence and replay files go (the self-test redirects it so that runs
+// against mutated scratch copies never overwrite the evidence of the real tree).
+func evidenceDir() string {
+	if v := os.Getenv("VERIF_EVIDENCE_DIR"); v != "" {
+		return v
+	}
+	return filepath.Join(verifRoot(), "evidence")
+}
+
 func verifRoot() string {
 	if v := os.Getenv("VERIF_ROOT"); v != "" {
 		return v
@@ -547,8 +556,8 @@ func writeEvidence(env *Env, s *Summary, distinct, nviol int, wall float64) {
 		"violations":  nviol,
 	}
 	b, _ := json.MarshalIndent(ev, "", " ")
-	os.MkdirAll(filepath.Join(verifRoot(), "evidence"), 0o755)
-	os.WriteFile(filepath.Join(verifRoot(), "evidence", p.ID+".json"), b, 0o644)
+	os.MkdirAll(evidenceDir(), 0o755)
+	os.WriteFile(filepath.Join(evidenceDir(), p.ID+".json"), b, 0o644)
 }
 
 // ---------------------------------------------------------------------------
